@@ -1,6 +1,1023 @@
-//! C06 — not implemented yet.
-use crate::report::{Cfg, Report};
+//! C06 — GLM fitting returns the (penalised) MLE with correct inference (DESIGN §3 C06).
+//!
+//! Events: every `GLM::fit` (Ok / Err / panic, Fisher iterations seen through the `glm.iter` hook)
+//! and, after a successful fit, `coef()`, `deviance()`, `dispersion()`, `coef_covariance_matrix()`,
+//! `coef_standard_error()`, `aic()`, `bic()`, `predict()`.
+//!
+//! Oracle: from `coef()` alone the harness recomputes (η in double-double, sums in double-double)
+//!   U_j = Σ_i w_i x_ij (y_i − μ_i) μ'_i / V(μ_i) − α β_j [j ≥ 1],   I = XᵀWX + α·diag(0,1,…,1)
+//! and requires the Newton decrement UᵀI⁻¹U ≤ K·tol·max(D,1), K = 100 (D = weighted deviance at
+//! the returned coefficients). Derivation of K: the stop rule bounds the last relative change of the
+//! (penalised) deviance by tol; the decrement is, to second order, the deviance still to be gained;
+//! for a linearly convergent scoring iteration with rate r the remaining gain is ≤ r⁴/(1−r²) of the
+//! last change because the returned β is one update past the last evaluated deviance; K = 100
+//! covers r ≤ 0.995 and the factor ≤ 3 between weighted and unweighted deviance. Loose tolerances
+//! therefore decide little; the power is in tol = 1e-10 / 1e-14 where the threshold is ≤ 1e-8·D.
+//!
+//!
+//! The library caches deviance and information at the μ of the last-but-one coefficient vector.
+//! That lag is second order in the last step for the deviance of an unpenalised fit (DESIGN's
+//! `K·tol + 1e-10`), but FIRST order (∝ sqrt(tol)) for the information of Bernoulli/(quasi-)Poisson
+//! fits and for the deviance at a penalised fixed point (∇D = 2αβ ≠ 0). DESIGN's `1e-6 + K·tol` for
+//! standard errors alarmed on correct code (tol = 1e-5, Bernoulli, α = 1: 1.8e-3), so `limits()`
+//! derives the first-order terms from the same decrement threshold (see there).
+//!
+//! Signatures are built so that each mechanism found on the unchanged tree has its own one:
+//!   C06.score.zero|alpha!=0,1                 gradient penalty omits α (fixed point of strength 1)
+//!   C06.gaussian.ridge_ls|alpha!=0,1          same mechanism seen through the closed form
+//!   C06.deviance|gaussian:w=none              Gaussian deviance is sqrt(RSS)
+//!   C06.deviance|nongaussian:w=integer        deviance ignores the weights (while n is the weight sum)
+//!   C06.deviance|gaussian:w=integer           both of the above
+//!   C06.stderr|gaussian:w=none, |gaussian:w=integer, |dispersion-family:w=integer
+//!                                             the same three through dispersion → standard errors
+//!   C06.replication.deviance|integer-weights, C06.replication.stderr|dispersion-family
+//!                                             integer weights ≢ replicated rows (same weights defect, no
+//!                                             definition of "weighted deviance" needed)
+//! while alpha ∈ {0,1} (score per family), unweighted non-Gaussian deviance per family, covariance
+//! against the library's own dispersion, unit-dispersion standard errors, predictions, permutation
+//! and the Err clause are monitored under their own (silent) regimes. α added to the intercept's
+//! information entry only changes the path (notes `iterations_max.*`: Gaussian α=0 needs 3
+//! iterations, α=1 up to 20), which the property does not constrain.
+use crate::gen::Rng;
+use crate::oracle::dd::Dd;
+use crate::oracle::linref;
+use crate::report::{guard, jf, jnum, par_cases, Cfg, Hasher, Report};
+use compute::predict::{ExponentialFamily, GLM};
+use compute::verif_hooks::{count, Site};
+use serde_json::{json, Value};
 
-pub fn run(_cfg: &Cfg, rep: &mut Report) {
-    rep.inconclusive("monitor for C06 not implemented".to_string());
+const K: f64 = 100.0;
+const EPS: f64 = f64::EPSILON;
+const ALPHAS: [f64; 4] = [0.0, 0.1, 1.0, 10.0];
+const TOLS: [f64; 4] = [1e-5, 1e-8, 1e-10, 1e-14];
+const MAX_ITER: usize = 300;
+
+#[derive(Clone, Copy, PartialEq, Eq, Debug)]
+enum Fam {
+    Gaussian,
+    Bernoulli,
+    QuasiPoisson,
+    Poisson,
+    Gamma,
+    Exponential,
+}
+const FAMS: [Fam; 6] = [Fam::Gaussian, Fam::Bernoulli, Fam::QuasiPoisson, Fam::Poisson, Fam::Gamma, Fam::Exponential];
+
+impl Fam {
+    fn name(self) -> &'static str {
+        match self {
+            Fam::Gaussian => "gaussian",
+            Fam::Bernoulli => "bernoulli",
+            Fam::QuasiPoisson => "quasipoisson",
+            Fam::Poisson => "poisson",
+            Fam::Gamma => "gamma",
+            Fam::Exponential => "exponential",
+        }
+    }
+    fn lib(self) -> ExponentialFamily {
+        match self {
+            Fam::Gaussian => ExponentialFamily::Gaussian,
+            Fam::Bernoulli => ExponentialFamily::Bernoulli,
+            Fam::QuasiPoisson => ExponentialFamily::QuasiPoisson,
+            Fam::Poisson => ExponentialFamily::Poisson,
+            Fam::Gamma => ExponentialFamily::Gamma,
+            Fam::Exponential => ExponentialFamily::Exponential,
+        }
+    }
+    /// families whose dispersion is estimated as deviance / (n − p)
+    fn has_dispersion(self) -> bool {
+        matches!(self, Fam::Gaussian | Fam::QuasiPoisson | Fam::Gamma)
+    }
+    /// textbook pieces at linear predictor η: (μ, (y−μ)·μ'/V, μ'²/V, |dμ/dη|)
+    fn obs(self, y: f64, eta: f64) -> (f64, f64, f64, f64) {
+        match self {
+            Fam::Gaussian => (eta, y - eta, 1.0, 1.0),
+            Fam::Bernoulli => {
+                let mu = 1.0 / (1.0 + (-eta).exp());
+                let one_minus = 1.0 / (1.0 + eta.exp());
+                // y − μ without cancellation for y ∈ {0,1}
+                let s = if y == 1.0 {
+                    one_minus
+                } else if y == 0.0 {
+                    -mu
+                } else {
+                    y - mu
+                };
+                (mu, s, mu * one_minus, mu * one_minus)
+            }
+            Fam::QuasiPoisson | Fam::Poisson => {
+                let mu = eta.exp();
+                (mu, y - mu, mu, mu)
+            }
+            Fam::Gamma | Fam::Exponential => {
+                let mu = eta.exp();
+                (mu, (y - mu) / mu, 1.0, mu)
+            }
+        }
+    }
+    /// textbook unit deviance d(y, μ)
+    fn unit_deviance(self, y: f64, mu: f64) -> f64 {
+        match self {
+            Fam::Gaussian => (y - mu) * (y - mu),
+            Fam::Bernoulli => {
+                let a = if y > 0.0 { y * mu.ln() } else { 0.0 };
+                let b = if y < 1.0 { (1.0 - y) * (-mu).ln_1p() } else { 0.0 };
+                -2.0 * (a + b)
+            }
+            Fam::QuasiPoisson | Fam::Poisson => {
+                let a = if y > 0.0 { y * (y / mu).ln() } else { 0.0 };
+                2.0 * (a - (y - mu))
+            }
+            Fam::Gamma | Fam::Exponential => 2.0 * ((y - mu) / mu - (y / mu).ln()),
+        }
+    }
+}
+
+#[derive(Clone)]
+struct Prob {
+    fam: Fam,
+    n: usize,
+    p: usize,
+    x: Vec<f64>,
+    y: Vec<f64>,
+    w: Option<Vec<f64>>,
+    off: Option<Vec<f64>>,
+    alpha: f64,
+    tol: f64,
+    design: &'static str,
+    wkind: &'static str,
+}
+
+impl Prob {
+    fn wi(&self, i: usize) -> f64 {
+        self.w.as_ref().map(|w| w[i]).unwrap_or(1.0)
+    }
+    fn oi(&self, i: usize) -> f64 {
+        self.off.as_ref().map(|o| o[i]).unwrap_or(0.0)
+    }
+    fn alpha_class(&self) -> &'static str {
+        if self.alpha == 0.0 {
+            "alpha=0"
+        } else if self.alpha == 1.0 {
+            "alpha=1"
+        } else {
+            "alpha!=0,1"
+        }
+    }
+    fn json(&self) -> Value {
+        json!({"family": self.fam.name(), "n": self.n, "p": self.p, "alpha": self.alpha, "tolerance": self.tol, "design": self.design,
+               "weights_kind": self.wkind, "x_row_major": jf(&self.x), "y": jf(&self.y),
+               "weights": self.w.as_ref().map(|w| jf(w)), "offsets": self.off.as_ref().map(|o| jf(o))})
+    }
+    /// rows permuted by `perm`
+    fn permuted(&self, perm: &[usize]) -> Prob {
+        let mut q = self.clone();
+        for (k, &i) in perm.iter().enumerate() {
+            q.x[k * self.p..(k + 1) * self.p].copy_from_slice(&self.x[i * self.p..(i + 1) * self.p]);
+            q.y[k] = self.y[i];
+            if let (Some(qw), Some(w)) = (q.w.as_mut(), self.w.as_ref()) {
+                qw[k] = w[i];
+            }
+            if let (Some(qo), Some(o)) = (q.off.as_mut(), self.off.as_ref()) {
+                qo[k] = o[i];
+            }
+        }
+        q
+    }
+    /// integer weights turned into replicated rows (no weights)
+    fn replicated(&self) -> Prob {
+        let w = self.w.as_ref().unwrap();
+        let mut q = self.clone();
+        q.x.clear();
+        q.y.clear();
+        q.w = None;
+        q.wkind = "none";
+        let mut off = Vec::new();
+        for i in 0..self.n {
+            for _ in 0..(w[i] as usize) {
+                q.x.extend_from_slice(&self.x[i * self.p..(i + 1) * self.p]);
+                q.y.push(self.y[i]);
+                if let Some(o) = &self.off {
+                    off.push(o[i]);
+                }
+            }
+        }
+        q.n = q.y.len();
+        q.off = self.off.as_ref().map(|_| off);
+        q
+    }
+}
+
+/// What the oracle derives from a coefficient vector.
+struct Eval {
+    /// Newton decrement UᵀI⁻¹U for the given penalty strength
+    dec: f64,
+    /// weighted deviance Σ w_i d(y_i, μ_i)
+    dev: f64,
+    /// unpenalised information XᵀWX (f64 copy)
+    info: Vec<f64>,
+    mu: Vec<f64>,
+    /// a-priori bound on |fl(μ_i) − μ_i| for a correctly rounded evaluation of g⁻¹(x_iᵀβ + o_i)
+    mu_bound: Vec<f64>,
+    score_inf: f64,
+}
+
+fn evaluate(pr: &Prob, beta: &[f64], strength: f64) -> Option<Eval> {
+    let (n, p) = (pr.n, pr.p);
+    let mut u = vec![Dd::ZERO; p];
+    let mut info = vec![Dd::ZERO; p * p];
+    let mut dev = Dd::ZERO;
+    let mut mu = Vec::with_capacity(n);
+    let mut mu_bound = Vec::with_capacity(n);
+    for i in 0..n {
+        let row = &pr.x[i * p..(i + 1) * p];
+        let mut eta = Dd::new(pr.oi(i));
+        let mut mag = pr.oi(i).abs();
+        for j in 0..p {
+            eta = eta + Dd::prod(row[j], beta[j]);
+            mag += (row[j] * beta[j]).abs();
+        }
+        let (m, s, ww, dmu) = pr.fam.obs(pr.y[i], eta.f());
+        if !m.is_finite() {
+            return None;
+        }
+        let w = pr.wi(i);
+        dev = dev + Dd::prod(w, pr.fam.unit_deviance(pr.y[i], m));
+        for j in 0..p {
+            let xs = Dd::prod(row[j], w);
+            u[j] = u[j] + xs * s;
+            let xw = xs * ww;
+            for k in j..p {
+                info[j * p + k] = info[j * p + k] + xw * row[k];
+            }
+        }
+        mu.push(m);
+        mu_bound.push(EPS * ((p + 2) as f64 * mag * dmu + 4.0 * m.abs()));
+    }
+    for j in 0..p {
+        for k in 0..j {
+            info[j * p + k] = info[k * p + j];
+        }
+    }
+    let info_f: Vec<f64> = info.iter().map(|v| v.f()).collect();
+    for j in 1..p {
+        u[j] = u[j] - Dd::prod(strength, beta[j]);
+        info[j * p + j] = info[j * p + j] + strength;
+    }
+    let step = linref::solve_dd_dd(&info, &u, p, 1)?;
+    let mut dec = Dd::ZERO;
+    for j in 0..p {
+        dec = dec + u[j] * step[j];
+    }
+    let score_inf = u.iter().map(|v| v.f().abs()).fold(0.0, f64::max);
+    Some(Eval { dec: dec.f(), dev: dev.f(), info: info_f, mu, mu_bound, score_inf })
+}
+
+/// The harness's own damped Fisher scoring (f64). Used only to establish that the (penalised) MLE
+/// exists with moderate linear predictors, i.e. that the case is inside the property's quantifier.
+fn reference_fit(pr: &Prob, strength: f64) -> Option<Vec<f64>> {
+    let (n, p) = (pr.n, pr.p);
+    let objective = |b: &[f64]| -> f64 {
+        let mut d = 0.0;
+        for i in 0..n {
+            let eta: f64 = pr.oi(i) + (0..p).map(|j| pr.x[i * p + j] * b[j]).sum::<f64>();
+            let (m, _, _, _) = pr.fam.obs(pr.y[i], eta);
+            d += pr.wi(i) * pr.fam.unit_deviance(pr.y[i], m);
+        }
+        d + strength * b[1..].iter().map(|v| v * v).sum::<f64>()
+    };
+    let sw: f64 = (0..n).map(|i| pr.wi(i)).sum();
+    let ybar: f64 = (0..n).map(|i| pr.wi(i) * pr.y[i]).sum::<f64>() / sw;
+    let mut beta = vec![0.0; p];
+    beta[0] = match pr.fam {
+        Fam::Gaussian => ybar,
+        Fam::Bernoulli => {
+            let q = ybar.clamp(0.02, 0.98);
+            (q / (1.0 - q)).ln()
+        }
+        _ => ybar.max(1e-3).ln(),
+    };
+    let mut cur = objective(&beta);
+    for _ in 0..100 {
+        let mut u = vec![0.0; p];
+        let mut info = vec![0.0; p * p];
+        for i in 0..n {
+            let row = &pr.x[i * p..(i + 1) * p];
+            let eta: f64 = pr.oi(i) + (0..p).map(|j| row[j] * beta[j]).sum::<f64>();
+            let (_, s, ww, _) = pr.fam.obs(pr.y[i], eta);
+            let w = pr.wi(i);
+            for j in 0..p {
+                u[j] += w * row[j] * s;
+                for k in 0..p {
+                    info[j * p + k] += w * ww * row[j] * row[k];
+                }
+            }
+        }
+        for j in 1..p {
+            u[j] -= strength * beta[j];
+            info[j * p + j] += strength;
+        }
+        let step = linref::solve(&info, &u, p, 1)?;
+        let dec: f64 = (0..p).map(|j| u[j] * step[j]).sum();
+        if !dec.is_finite() {
+            return None;
+        }
+        if dec.abs() <= 1e-13 * cur.abs().max(1.0) {
+            let max_eta = (0..n).map(|i| (pr.oi(i) + (0..p).map(|j| pr.x[i * p + j] * beta[j]).sum::<f64>()).abs()).fold(0.0, f64::max);
+            return if max_eta <= 15.0 || pr.fam == Fam::Gaussian { Some(beta) } else { None };
+        }
+        let mut t = 1.0;
+        loop {
+            let cand: Vec<f64> = (0..p).map(|j| beta[j] + t * step[j]).collect();
+            let o = objective(&cand);
+            if o.is_finite() && o <= cur + 1e-12 * cur.abs() {
+                beta = cand;
+                cur = o;
+                break;
+            }
+            t *= 0.5;
+            if t < 1e-6 {
+                return None;
+            }
+        }
+    }
+    None
+}
+
+// ---------------------------------------------------------------------------------------------
+// generators
+
+fn standardise(col: &mut [f64]) {
+    let n = col.len() as f64;
+    let m = col.iter().sum::<f64>() / n;
+    let v = col.iter().map(|c| (c - m) * (c - m)).sum::<f64>() / n;
+    let s = v.sqrt();
+    for c in col.iter_mut() {
+        *c = (*c - m) / s;
+    }
+}
+
+/// n×p design with a leading column of ones; returns None if it is (nearly) collinear
+fn gen_design(rng: &mut Rng, kind: &str, n: usize, p: usize) -> Option<Vec<f64>> {
+    let mut cols: Vec<Vec<f64>> = Vec::new();
+    match kind {
+        "polynomial" => {
+            let t: Vec<f64> = (0..n).map(|_| rng.range(-1.0, 1.0)).collect();
+            for j in 1..p {
+                cols.push(t.iter().map(|v| v.powi(j as i32)).collect());
+            }
+        }
+        "indicator" => {
+            let forced = rng.usize(1, p.max(2) - 1);
+            for j in 1..p {
+                if j == forced || rng.chance(0.5) {
+                    let q = rng.range(0.3, 0.7);
+                    let c: Vec<f64> = (0..n).map(|_| if rng.chance(q) { 1.0 } else { 0.0 }).collect();
+                    let ones = c.iter().filter(|v| **v == 1.0).count();
+                    if ones < 3 || n - ones < 3 {
+                        return None;
+                    }
+                    cols.push(c);
+                } else {
+                    let mut c = rng.normals(n);
+                    standardise(&mut c);
+                    cols.push(c);
+                }
+            }
+        }
+        _ => {
+            for _ in 1..p {
+                let mut c = rng.normals(n);
+                standardise(&mut c);
+                cols.push(c);
+            }
+        }
+    }
+    let mut x = vec![1.0; n * p];
+    for i in 0..n {
+        for j in 1..p {
+            x[i * p + j] = cols[j - 1][i];
+        }
+    }
+    // reject nearly collinear designs (scaled Gram condition number)
+    let mut g = vec![0.0; p * p];
+    for i in 0..n {
+        for a in 0..p {
+            for b in 0..p {
+                g[a * p + b] += x[i * p + a] * x[i * p + b];
+            }
+        }
+    }
+    let d: Vec<f64> = (0..p).map(|j| g[j * p + j].sqrt()).collect();
+    for a in 0..p {
+        for b in 0..p {
+            g[a * p + b] /= d[a] * d[b];
+        }
+    }
+    let ev = linref::jacobi_eigenvalues(&g, p);
+    if !(ev[0] > 0.0) || ev[p - 1] / ev[0] > 1e6 {
+        return None;
+    }
+    Some(x)
+}
+
+fn simulate(rng: &mut Rng, fam: Fam, eta: &[f64]) -> Vec<f64> {
+    match fam {
+        Fam::Gaussian => {
+            let s = rng.range(0.3, 2.0);
+            eta.iter().map(|e| e + s * rng.normal()).collect()
+        }
+        Fam::Bernoulli => eta.iter().map(|e| if rng.f64() < 1.0 / (1.0 + (-e).exp()) { 1.0 } else { 0.0 }).collect(),
+        Fam::Poisson => eta.iter().map(|e| rng.poisson(e.exp())).collect(),
+        Fam::QuasiPoisson => {
+            let k = rng.range(2.0, 10.0);
+            eta.iter().map(|e| { let g = rng.gamma(k) / k; rng.poisson(e.exp() * g) }).collect()
+        }
+        Fam::Gamma => {
+            let k = rng.range(1.0, 6.0);
+            eta.iter().map(|e| (e.exp() * rng.gamma(k) / k).max(1e-300)).collect()
+        }
+        Fam::Exponential => eta.iter().map(|e| (e.exp() * rng.exp1()).max(1e-300)).collect(),
+    }
+}
+
+/// A problem inside the quantifier, or None (counted as excluded) if no MLE was established.
+fn gen_problem(rng: &mut Rng, fam: Fam, alpha: f64, tol: f64, small: bool) -> Option<Prob> {
+    let n = if small { rng.usize(20, 24) } else { rng.log_range(20.0, 500.99).floor() as usize };
+    let p = if small { 2 } else { rng.usize(1, 6) };
+    let design = if p == 1 { "intercept-only" } else { *rng.choose(&["normal", "polynomial", "indicator"]) };
+    let wkind = *rng.choose(&["none", "none", "random", "integer"]);
+    let with_off = rng.chance(0.4);
+    for _attempt in 0..6 {
+        let x = match gen_design(rng, design, n, p) {
+            Some(x) => x,
+            None => continue,
+        };
+        // |β| <= 1.5: slopes inside the ball of radius 1.5, intercept chosen per family
+        let mut beta: Vec<f64> = (0..p).map(|_| rng.range(-1.5, 1.5)).collect();
+        let nb = beta[1..].iter().map(|b| b * b).sum::<f64>().sqrt();
+        if nb > 1.5 {
+            let r = 1.5 * rng.range(0.3, 1.0) / nb;
+            for b in beta[1..].iter_mut() {
+                *b *= r;
+            }
+        }
+        beta[0] = match fam {
+            Fam::Gaussian => rng.range(-1.5, 1.5),
+            Fam::Bernoulli => rng.range(-1.0, 1.0),
+            Fam::Poisson | Fam::QuasiPoisson => rng.range(0.0, 1.5),
+            Fam::Gamma | Fam::Exponential => rng.range(-1.0, 1.5),
+        };
+        let off: Option<Vec<f64>> = if with_off { Some((0..n).map(|_| rng.range(-0.5, 0.5)).collect()) } else { None };
+        let w: Option<Vec<f64>> = match wkind {
+            "random" => Some((0..n).map(|_| rng.range(0.5, 3.0)).collect()),
+            "integer" => Some((0..n).map(|_| rng.int(1, 3) as f64).collect()),
+            _ => None,
+        };
+        let eta: Vec<f64> = (0..n).map(|i| off.as_ref().map(|o| o[i]).unwrap_or(0.0) + (0..p).map(|j| x[i * p + j] * beta[j]).sum::<f64>()).collect();
+        let y = simulate(rng, fam, &eta);
+        let pr = Prob { fam, n, p, x, y, w, off, alpha, tol, design, wkind };
+        // MLE exists for the configured strength and for the unpenalised problem of the replicated/permuted data alike
+        if reference_fit(&pr, alpha).is_some() && (alpha == 0.0 || reference_fit(&pr, 1.0).is_some()) {
+            return Some(pr);
+        }
+    }
+    None
+}
+
+// ---------------------------------------------------------------------------------------------
+// library side
+
+struct Fit {
+    /// Ok(true) = fit returned Ok, Ok(false) = Err, Err = panic message
+    outcome: Result<bool, String>,
+    iters: u64,
+    glm: Option<GLM>,
+}
+
+fn lib_fit(pr: &Prob, max_iter: usize) -> Fit {
+    let before = count(Site::GlmIter);
+    let r = guard(|| {
+        let mut glm = GLM::new(pr.fam.lib());
+        glm.set_penalty(pr.alpha).set_tolerance(pr.tol);
+        if let Some(w) = &pr.w {
+            glm.set_weights(w);
+        }
+        if let Some(o) = &pr.off {
+            glm.set_offset(o);
+        }
+        let ok = glm.fit(&pr.x, &pr.y, max_iter).is_ok();
+        (glm, ok)
+    });
+    let iters = count(Site::GlmIter) - before;
+    match r {
+        Ok((glm, ok)) => Fit { outcome: Ok(ok), iters, glm: Some(glm) },
+        Err(msg) => Fit { outcome: Err(msg), iters, glm: None },
+    }
+}
+
+fn rel_err(a: f64, b: f64) -> f64 {
+    if a == b {
+        0.0
+    } else {
+        let e = (a - b).abs() / b.abs().max(f64::MIN_POSITIVE);
+        if e.is_nan() {
+            f64::INFINITY
+        } else {
+            e
+        }
+    }
+}
+
+fn lambda_min_max(a: &[f64], p: usize) -> (f64, f64) {
+    let ev = linref::jacobi_eigenvalues(a, p);
+    (ev[0], ev[p - 1])
+}
+
+/// Tolerances that follow from "the returned β is within the decrement threshold of the fixed point and
+/// deviance / information were evaluated one update earlier" (the library caches μ of the last-but-one
+/// coefficient vector). `step` bounds ‖β_prev − β‖₂.
+struct Limits {
+    /// relative, reported deviance vs deviance at predict(X)
+    dev: f64,
+    /// relative (scaled by sqrt(c_aa c_bb)), covariance / standard errors
+    cov: f64,
+    /// absolute, coefficients of two fits of the same data
+    coef: f64,
+}
+
+fn limits(pr: &Prob, ev: &Eval, coef: &[f64], inv: Option<&[f64]>) -> Limits {
+    let p = pr.p;
+    let (lmin, lmax) = lambda_min_max(&ev.info, p);
+    let kappa = if lmin > 0.0 { lmax / lmin } else { f64::INFINITY };
+    let thr = K * pr.tol * ev.dev.max(1.0);
+    let step = (thr / lmin).sqrt();
+    // second order in the step for an unpenalised fit (∇D = 0 at the MLE); at a penalised fixed point
+    // ∇D = 2·strength·β ≠ 0, so the one-update lag is first order there
+    let bnorm = coef[1..].iter().map(|b| b * b).sum::<f64>().sqrt();
+    // On the unchanged tree the iteration for α ∉ {0,1} is not a descent method for the quantity its stop
+    // rule watches (gradient uses strength 1, stop rule and information use α), so the lag is not tied to
+    // tol as tightly there (observed: 4.5× instead of > 90× headroom); the first-order terms get ×10.
+    let lag = if pr.alpha_class() == "alpha!=0,1" { 10.0 } else { 1.0 };
+    let first_order_dev = if pr.alpha > 0.0 { lag * 2.0 * pr.alpha.max(1.0) * bnorm * step / ev.dev.max(f64::MIN_POSITIVE) } else { 0.0 };
+    let dev = K * pr.tol + 1e-10 + first_order_dev;
+    // W_i = w_i μ'²/V is constant in η for Gaussian and the log-link gamma/exponential; for
+    // Bernoulli / (quasi-)Poisson |d ln W_i / dη_i| ≤ 1, and |δη_i| ≤ sqrt(x_iᵀI⁻¹x_i)·sqrt(thr)
+    let varying = matches!(pr.fam, Fam::Bernoulli | Fam::Poisson | Fam::QuasiPoisson);
+    let mut first_order_info = 0.0;
+    if let (true, Some(inv)) = (varying, inv) {
+        let mut h2 = 0.0f64;
+        for i in 0..pr.n {
+            let row = &pr.x[i * p..(i + 1) * p];
+            let mut q = 0.0;
+            for a in 0..p {
+                for b in 0..p {
+                    q += row[a] * inv[a * p + b] * row[b];
+                }
+            }
+            h2 = h2.max(q);
+        }
+        first_order_info = lag * h2.sqrt() * thr.sqrt();
+    }
+    let cov = 1e-6 + 64.0 * EPS * kappa + first_order_info + if pr.fam.has_dispersion() { dev } else { 0.0 };
+    let scale = coef.iter().fold(0.0f64, |m, v| m.max(v.abs())).max(1.0);
+    let coef_lim = 2.0 * (2.0 * thr / lmin).sqrt() + 1e-9 * kappa * scale;
+    Limits { dev, cov, coef: coef_lim }
+}
+
+/// All assertions on one successful fit. Returns the coefficients.
+fn check_success(rep: &mut Report, pr: &Prob, glm: &GLM, iters: u64) -> Option<(Vec<f64>, Eval, Limits)> {
+    let fam = pr.fam.name();
+    let ac = pr.alpha_class();
+    let (n, p) = (pr.n, pr.p);
+    let coef: Vec<f64> = match glm.coef() {
+        Ok(c) => c.to_vec(),
+        Err(e) => {
+            rep.check("C06.accessors.available", fam, false, || json!({"problem": pr.json(), "coef": e}));
+            return None;
+        }
+    };
+    if !rep.check("C06.coef.finite", fam, coef.len() == p && coef.iter().all(|v| v.is_finite()), || json!({"problem": pr.json(), "coef": jf(&coef)})) {
+        return None;
+    }
+    let ev = match evaluate(pr, &coef, pr.alpha) {
+        Some(ev) => ev,
+        None => {
+            rep.inconclusive(format!("C06: oracle could not evaluate the score at the returned coefficients ({}, case_seed {})", fam, rep.case_seed));
+            return None;
+        }
+    };
+    let dscale = ev.dev.max(1.0);
+    let thr = K * pr.tol * dscale;
+
+    // ---- (1) penalised score equations: Newton decrement
+    let ratio = ev.dec / (pr.tol * dscale);
+    let score_regime = if ac == "alpha!=0,1" { ac.to_string() } else { format!("{}:{}", fam, ac) };
+    rep.note_max(&format!("worst_ratio.decrement_over_tolD.{}", ac), ratio);
+    rep.check("C06.score.zero", &score_regime, ratio <= K, || {
+        let with_one = evaluate(pr, &coef, 1.0).map(|e| e.dec);
+        json!({"problem": pr.json(), "coef": jf(&coef), "iterations": iters, "newton_decrement": ev.dec, "score_inf_norm": ev.score_inf,
+               "threshold_K_tol_maxD1": thr, "deviance_at_coef": ev.dev,
+               "diagnosis_decrement_if_penalty_strength_were_1": with_one})
+    });
+
+    let inv = linref::inverse(&ev.info, p);
+    let lims = limits(pr, &ev, &coef, inv.as_deref());
+
+    // ---- (2) Gaussian: weighted ridge least squares (intercept unpenalised)
+    let (lmin_unpen, lmax_unpen) = lambda_min_max(&ev.info, p);
+    let kappa = if lmin_unpen > 0.0 { lmax_unpen / lmin_unpen } else { f64::INFINITY };
+    if pr.fam == Fam::Gaussian && pr.off.is_none() {
+        let mut pen = vec![pr.alpha; p];
+        pen[0] = 0.0;
+        match linref::ridge_ls(&pr.x, &pr.y, pr.w.as_deref(), &pen, n, p) {
+            None => rep.inconclusive("C06: reference ridge least squares failed".into()),
+            Some(bref) => {
+                let scale = bref.iter().fold(0.0f64, |m, v| m.max(v.abs())).max(1.0);
+                let lim = (thr / lmin_unpen).sqrt() + 1e-9 * kappa * scale;
+                let err = coef.iter().zip(&bref).map(|(a, b)| (a - b).abs()).fold(0.0, f64::max);
+                rep.note_max(&format!("worst_ratio.gaussian_ridge_ls.{}", ac), err / lim);
+                rep.check("C06.gaussian.ridge_ls", ac, err <= lim, || {
+                    let mut pen1 = vec![1.0; p];
+                    pen1[0] = 0.0;
+                    json!({"problem": pr.json(), "coef": jf(&coef), "ridge_ls_reference": jf(&bref), "max_abs_diff": err, "limit": lim,
+                           "diagnosis_ridge_ls_with_strength_1": linref::ridge_ls(&pr.x, &pr.y, pr.w.as_deref(), &pen1, n, p).map(|b| jf(&b))})
+                });
+            }
+        }
+    }
+
+    // ---- (3) predictions = g⁻¹(Xβ + offset)
+    let pred: Option<Vec<f64>> = match guard(|| glm.predict(&pr.x).map(|v| v.to_vec()).map_err(|e| e.to_string())) {
+        Ok(Ok(v)) if v.len() == n => {
+            let mut worst = 0.0f64;
+            let mut at = 0;
+            for i in 0..n {
+                let r = (v[i] - ev.mu[i]).abs() / (ev.mu_bound[i] + f64::MIN_POSITIVE);
+                let r = if r.is_nan() { f64::INFINITY } else { r };
+                if r > worst {
+                    worst = r;
+                    at = i;
+                }
+            }
+            rep.note_max("worst_ratio.predict_over_rounding_bound", worst);
+            rep.check("C06.predict.inverse_link", fam, worst <= 8.0, || {
+                json!({"problem": pr.json(), "coef": jf(&coef), "row": at, "observed": jnum(v[at]), "expected": jnum(ev.mu[at]), "error_over_bound": jnum(worst)})
+            });
+            // new data (fewer rows) when no offsets are attached to the model
+            if pr.off.is_none() && n >= 2 {
+                let m = n / 2;
+                let sub = guard(|| glm.predict(&pr.x[..m * p]).map(|v| v.to_vec()).map_err(|e| e.to_string()));
+                let ok = match &sub {
+                    Ok(Ok(s)) => s.len() == m && (0..m).all(|i| (s[i] - ev.mu[i]).abs() <= 8.0 * ev.mu_bound[i] + f64::MIN_POSITIVE),
+                    _ => false,
+                };
+                rep.check("C06.predict.new_rows", fam, ok, || json!({"problem": pr.json(), "coef": jf(&coef), "rows": m, "observed": format!("{:?}", sub.as_ref().map(|r| r.as_ref().map(|v| jf(v)))), "expected": jf(&ev.mu[..m])}));
+            }
+            Some(v)
+        }
+        other => {
+            rep.check("C06.predict.inverse_link", fam, false, || json!({"problem": pr.json(), "coef": jf(&coef), "observed": format!("{:?}", other.map(|r| r.map(|v| v.len())))}));
+            None
+        }
+    };
+
+    // ---- (4) deviance = family deviance at the fitted means
+    let dev_lib = glm.deviance().unwrap_or(f64::NAN);
+    let wclass = format!("w={}", pr.wkind);
+    if let Some(pred) = &pred {
+        if pr.wkind != "random" {
+            let mut d = Dd::ZERO;
+            let mut d_unw = Dd::ZERO;
+            for i in 0..n {
+                let u = pr.fam.unit_deviance(pr.y[i], pred[i]);
+                d = d + Dd::prod(pr.wi(i), u);
+                d_unw = d_unw + Dd::new(u);
+            }
+            let (d, d_unw) = (d.f(), d_unw.f());
+            let regime = match (pr.fam, pr.wkind) {
+                (Fam::Gaussian, _) => format!("gaussian:{}", wclass),
+                (_, "none") => format!("{}:w=none", fam),
+                _ => format!("nongaussian:{}", wclass),
+            };
+            let lim = lims.dev;
+            let e = rel_err(dev_lib, d);
+            if regime.ends_with("w=none") && pr.fam != Fam::Gaussian {
+                rep.note_max(&format!("worst_ratio.deviance_relerr_over_limit.{}", ac), e / lim);
+                rep.note_max(&format!("worst_ratio.deviance_relerr_over_tol.{}", ac), e / pr.tol);
+            }
+            rep.check("C06.deviance", &regime, e <= lim, || {
+                json!({"problem": pr.json(), "coef": jf(&coef), "deviance_reported": jnum(dev_lib), "deviance_expected_weighted_textbook": d,
+                       "relative_error": jnum(e), "limit": lim,
+                       "diagnosis": {"unweighted_textbook_deviance": d_unw, "sqrt_of_unweighted": d_unw.sqrt(), "sqrt_of_weighted": d.sqrt()}})
+            });
+        }
+    }
+
+    // ---- (5) dispersion, covariance, standard errors, aic, bic
+    let n_eff: Option<f64> = match pr.wkind {
+        "none" => Some(n as f64),
+        "integer" => Some(pr.w.as_ref().unwrap().iter().sum::<f64>()),
+        _ => None, // random weights: the property does not say which n is meant
+    };
+    let disp_lib = glm.dispersion().unwrap_or(f64::NAN);
+    if let Some(ne) = n_eff {
+        let expect = if pr.fam.has_dispersion() { dev_lib / (ne - p as f64) } else { 1.0 };
+        rep.check("C06.dispersion.formula", fam, rel_err(disp_lib, expect) <= 4.0 * EPS, || {
+            json!({"problem": pr.json(), "dispersion_reported": jnum(disp_lib), "expected_reported_deviance_over_n_minus_p": jnum(expect), "deviance_reported": jnum(dev_lib), "n": ne, "p": p})
+        });
+        let aic = glm.aic().unwrap_or(f64::NAN);
+        let bic = glm.bic().unwrap_or(f64::NAN);
+        rep.check("C06.aic.formula", fam, rel_err(aic, dev_lib + 2.0 * p as f64) <= 4.0 * EPS, || json!({"problem": pr.json(), "aic": jnum(aic), "deviance_reported": jnum(dev_lib), "p": p}));
+        rep.check("C06.bic.formula", fam, rel_err(bic, dev_lib + p as f64 * ne.ln()) <= 4.0 * EPS, || json!({"problem": pr.json(), "bic": jnum(bic), "deviance_reported": jnum(dev_lib), "p": p, "n": ne}));
+    }
+    let cov = guard(|| glm.coef_covariance_matrix().map_err(|e| e.to_string()));
+    let se = guard(|| glm.coef_standard_error().map(|v| v.to_vec()).map_err(|e| e.to_string()));
+    match (inv, cov, se) {
+        (Some(inv), Ok(Ok(cov)), Ok(Ok(se))) if cov.len() == p * p && se.len() == p => {
+            let lim = lims.cov;
+            // covariance against the library's own dispersion: isolates information matrix + inversion
+            let mut worst = 0.0f64;
+            for a in 0..p {
+                for b in 0..p {
+                    let scale = disp_lib * (inv[a * p + a] * inv[b * p + b]).sqrt();
+                    let r = (cov[a * p + b] - disp_lib * inv[a * p + b]).abs() / scale;
+                    worst = worst.max(if r.is_nan() { f64::INFINITY } else { r });
+                }
+            }
+            rep.note_max(&format!("worst_ratio.covariance_relerr_over_limit.{}", ac), worst / lim);
+            if pr.tol <= 1e-10 {
+                rep.note_max("worst_relerr.covariance_at_tol<=1e-10", worst);
+            }
+            rep.check("C06.covariance", fam, worst <= lim, || {
+                json!({"problem": pr.json(), "coef": jf(&coef), "covariance_reported": jf(&cov), "dispersion_reported": jnum(disp_lib),
+                       "inverse_information_expected": jf(&inv), "worst_scaled_error": jnum(worst), "limit": lim})
+            });
+            let consistent = (0..p).all(|j| rel_err(se[j], cov[j * p + j].sqrt()) <= 4.0 * EPS);
+            rep.check("C06.stderr.is_sqrt_diag_covariance", fam, consistent, || json!({"problem": pr.json(), "stderr": jf(&se), "covariance_reported": jf(&cov)}));
+            // standard errors against the oracle's dispersion
+            let disp_oracle: Option<f64> = if !pr.fam.has_dispersion() { Some(1.0) } else { n_eff.map(|ne| ev.dev / (ne - p as f64)) };
+            if let Some(phi) = disp_oracle {
+                let regime = if pr.fam == Fam::Gaussian {
+                    format!("gaussian:{}", wclass)
+                } else if pr.wkind == "none" {
+                    format!("{}:w=none", fam)
+                } else if pr.fam.has_dispersion() {
+                    format!("dispersion-family:{}", wclass)
+                } else {
+                    format!("unit-dispersion:{}", wclass)
+                };
+                let expect: Vec<f64> = (0..p).map(|j| (phi * inv[j * p + j]).sqrt()).collect();
+                let worst = (0..p).map(|j| rel_err(se[j], expect[j])).fold(0.0, f64::max);
+                if !(pr.fam == Fam::Gaussian || (pr.fam.has_dispersion() && pr.wkind != "none")) {
+                    rep.note_max(&format!("worst_ratio.stderr_relerr_over_limit.{}", ac), worst / lim);
+                }
+                rep.check("C06.stderr", &regime, worst <= lim, || {
+                    json!({"problem": pr.json(), "coef": jf(&coef), "stderr_reported": jf(&se), "stderr_expected": jf(&expect), "dispersion_expected": phi,
+                           "dispersion_reported": jnum(disp_lib), "worst_relative_error": jnum(worst), "limit": lim})
+                });
+            }
+        }
+        (None, _, _) => rep.inconclusive("C06: oracle information matrix singular".into()),
+        (_, cov, se) => {
+            rep.check("C06.accessors.available", fam, false, || json!({"problem": pr.json(), "covariance": format!("{:?}", cov.map(|r| r.map(|v| v.len()))), "stderr": format!("{:?}", se.map(|r| r.map(|v| v.len())))}));
+        }
+    }
+    Some((coef, ev, lims))
+}
+
+fn main_case(i: usize, small_until: usize, rng: &mut Rng, rep: &mut Report) {
+    let fam = FAMS[i % 6];
+    let alpha = ALPHAS[(i / 6) % 4];
+    let tol = TOLS[if i < 96 { (i / 24) % 4 } else { rng.usize(0, 3) }];
+    let pr = match gen_problem(rng, fam, alpha, tol, i < small_until) {
+        Some(pr) => pr,
+        None => {
+            rep.seen("excluded:no-mle-established-by-reference-fit", 1);
+            return;
+        }
+    };
+    let ac = pr.alpha_class();
+    let regime = format!("fit:{}:{}", fam.name(), ac);
+    rep.case(&regime);
+    for r in [format!("alpha={}", alpha), format!("tol={:e}", tol), format!("w={}", pr.wkind), format!("design={}", pr.design), format!("offsets={}", pr.off.is_some()), format!("p={}", pr.p)] {
+        rep.seen(&r, 1);
+    }
+    let fit = lib_fit(&pr, MAX_ITER);
+    rep.distinct(
+        Hasher::new().s(fam.name()).u(pr.n as u64).u(pr.p as u64).f(alpha).f(tol).s(pr.wkind).s(pr.design).u(pr.off.is_some() as u64).fs(&pr.y[..4]).finish(),
+        pr.p >= 2 && fit.iters >= 2,
+    );
+    rep.check("C06.nonconv.budget_respected", "main", fit.iters <= MAX_ITER as u64, || json!({"problem": pr.json(), "iterations": fit.iters, "max_iter": MAX_ITER}));
+    let glm = match (&fit.outcome, &fit.glm) {
+        (Err(msg), _) => {
+            rep.check("C06.fit.no_panic", fam.name(), false, || json!({"problem": pr.json(), "panic": msg}));
+            return;
+        }
+        (Ok(false), _) => {
+            rep.check("C06.fit.no_panic", fam.name(), true, || json!(null));
+            rep.seen(&format!("result:err:{}", ac), 1);
+            return;
+        }
+        (Ok(true), Some(g)) => {
+            rep.check("C06.fit.no_panic", fam.name(), true, || json!(null));
+            rep.seen("result:ok", 1);
+            rep.seen(&format!("ok:{}:tol={:e}", ac, tol), 1);
+            g
+        }
+        _ => return,
+    };
+    rep.note_max(&format!("iterations_max.{}.{}", if fam == Fam::Gaussian { "gaussian" } else { "nongaussian" }, ac), fit.iters as f64);
+    let (coef, ev, lims) = match check_success(rep, &pr, glm, fit.iters) {
+        Some(v) => v,
+        None => return,
+    };
+    rep.sample(|| json!({"family": fam.name(), "n": pr.n, "p": pr.p, "alpha": alpha, "tolerance": tol, "weights": pr.wkind, "offsets": pr.off.is_some(), "design": pr.design,
+                         "iterations": fit.iters, "coef": jf(&coef), "newton_decrement": ev.dec, "deviance_oracle": ev.dev, "deviance_reported": jnum(glm.deviance().unwrap_or(f64::NAN))}));
+    let lim = lims.coef;
+
+    // ---- (6) invariance to reordering observations
+    if i % 2 == 0 {
+        let perm = rng.perm(pr.n);
+        let q = pr.permuted(&perm);
+        let f2 = lib_fit(&q, MAX_ITER);
+        match (&f2.outcome, &f2.glm) {
+            (Ok(true), Some(g2)) => {
+                let c2 = g2.coef().map(|c| c.to_vec()).unwrap_or_default();
+                let err = coef.iter().zip(&c2).map(|(a, b)| (a - b).abs()).fold(0.0, f64::max);
+                rep.note_max("worst_ratio.permutation_coef_over_limit", err / lim);
+                rep.check("C06.permutation.coef", ac, c2.len() == coef.len() && err <= lim, || json!({"problem": pr.json(), "permutation": perm, "coef": jf(&coef), "coef_permuted": jf(&c2), "max_abs_diff": err, "limit": lim}));
+                let (d1, d2) = (glm.deviance().unwrap_or(f64::NAN), g2.deviance().unwrap_or(f64::NAN));
+                rep.check("C06.permutation.deviance", fam.name(), rel_err(d1, d2) <= 2.0 * lims.dev, || json!({"problem": pr.json(), "permutation": perm, "deviance": jnum(d1), "deviance_permuted": jnum(d2)}));
+            }
+            (Ok(false), _) => rep.seen("permutation:err-after-ok", 1),
+            (Err(msg), _) => {
+                rep.check("C06.fit.no_panic", fam.name(), false, || json!({"problem": q.json(), "panic": msg, "note": "row-permuted copy of a data set that fitted"}));
+            }
+            _ => {}
+        }
+    }
+
+    // ---- (7) integer weights ≡ replicated rows
+    if pr.wkind == "integer" {
+        let q = pr.replicated();
+        let f2 = lib_fit(&q, MAX_ITER);
+        match (&f2.outcome, &f2.glm) {
+            (Ok(true), Some(g2)) => {
+                rep.seen("replication:compared", 1);
+                let c2 = g2.coef().map(|c| c.to_vec()).unwrap_or_default();
+                let err = coef.iter().zip(&c2).map(|(a, b)| (a - b).abs()).fold(0.0, f64::max);
+                rep.note_max("worst_ratio.replication_coef_over_limit", err / lim);
+                rep.check("C06.replication.coef", ac, c2.len() == coef.len() && err <= lim, || json!({"problem": pr.json(), "coef_weighted": jf(&coef), "coef_replicated": jf(&c2), "max_abs_diff": err, "limit": lim}));
+                let (d1, d2) = (glm.deviance().unwrap_or(f64::NAN), g2.deviance().unwrap_or(f64::NAN));
+                let dl = 2.0 * lims.dev;
+                rep.check("C06.replication.deviance", "integer-weights", rel_err(d1, d2) <= dl, || {
+                    json!({"problem": pr.json(), "deviance_weighted_fit": jnum(d1), "deviance_replicated_fit": jnum(d2), "rows": pr.n, "replicated_rows": q.n, "relative_limit": dl})
+                });
+                let s1 = guard(|| glm.coef_standard_error().map(|v| v.to_vec()).unwrap_or_default()).unwrap_or_default();
+                let s2 = guard(|| g2.coef_standard_error().map(|v| v.to_vec()).unwrap_or_default()).unwrap_or_default();
+                if s1.len() == pr.p && s2.len() == pr.p {
+                    let sl = 2.0 * lims.cov;
+                    let worst = (0..pr.p).map(|j| rel_err(s1[j], s2[j])).fold(0.0, f64::max);
+                    let regime = if pr.fam.has_dispersion() { "dispersion-family" } else { "unit-dispersion" };
+                    if !pr.fam.has_dispersion() {
+                        rep.note_max("worst_ratio.replication_stderr_over_limit", worst / sl);
+                    }
+                    rep.check("C06.replication.stderr", regime, worst <= sl, || json!({"problem": pr.json(), "stderr_weighted_fit": jf(&s1), "stderr_replicated_fit": jf(&s2), "worst_relative_diff": jnum(worst), "limit": sl}));
+                }
+            }
+            (Ok(false), _) => rep.seen("replication:err-after-ok", 1),
+            (Err(msg), _) => {
+                rep.check("C06.fit.no_panic", fam.name(), false, || json!({"problem": q.json(), "panic": msg, "note": "replicated-rows copy of an integer-weighted data set that fitted"}));
+            }
+            _ => {}
+        }
+    }
+}
+
+/// Directed cases for "reports an error, not a wrong answer, when it has not converged".
+fn nonconv_case(i: usize, rng: &mut Rng, rep: &mut Report) {
+    if i % 4 == 3 {
+        // perfectly separable logistic data: no finite MLE, the iteration cannot converge
+        let n = rng.usize(20, 100);
+        let p = rng.usize(2, 4);
+        let x = loop {
+            if let Some(x) = gen_design(rng, "normal", n, p) {
+                break x;
+            }
+        };
+        let dir: Vec<f64> = (0..p).map(|j| if j == 0 { 0.0 } else { rng.range(0.5, 1.5) }).collect();
+        let mut y: Vec<f64> = (0..n).map(|r| if (0..p).map(|j| x[r * p + j] * dir[j]).sum::<f64>() > 0.0 { 1.0 } else { 0.0 }).collect();
+        if y.iter().all(|v| *v == y[0]) {
+            y[0] = 1.0 - y[0];
+        }
+        let tol = *rng.choose(&TOLS);
+        let max_iter = *rng.choose(&[25usize, 60]);
+        let pr = Prob { fam: Fam::Bernoulli, n, p, x, y, w: None, off: None, alpha: 0.0, tol, design: "normal", wkind: "none" };
+        let regime = "nonconv:separable-logistic";
+        rep.case(regime);
+        rep.distinct(Hasher::new().s(regime).u(n as u64).u(p as u64).f(tol).f(pr.x[1]).finish(), true);
+        let fit = lib_fit(&pr, max_iter);
+        rep.check("C06.nonconv.budget_respected", regime, fit.iters <= max_iter as u64, || json!({"problem": pr.json(), "iterations": fit.iters, "max_iter": max_iter}));
+        match &fit.outcome {
+            Ok(true) => {
+                let coef = fit.glm.as_ref().and_then(|g| g.coef().ok().map(|c| c.to_vec())).unwrap_or_default();
+                rep.check("C06.nonconv.reports_err", regime, false, || json!({"problem": pr.json(), "max_iter": max_iter, "iterations": fit.iters, "returned": "Ok", "coef": jf(&coef), "note": "separable data: no finite MLE exists"}));
+            }
+            Ok(false) => {
+                rep.check("C06.nonconv.reports_err", regime, true, || json!(null));
+                rep.seen("nonconv:separable:err", 1);
+            }
+            Err(_) => {
+                // a panic is not a wrong answer; separable data are outside the quantifier, so only counted
+                rep.seen("nonconv:separable:panic", 1);
+            }
+        }
+        return;
+    }
+    let fam = FAMS[(i / 4) % 6];
+    let alpha = *rng.choose(&[0.0, 1.0]);
+    let tol = *rng.choose(&TOLS);
+    let pr = match gen_problem(rng, fam, alpha, tol, false) {
+        Some(pr) => pr,
+        None => {
+            rep.seen("excluded:no-mle-established-by-reference-fit", 1);
+            return;
+        }
+    };
+    let max_iter = 1 + i % 4; // 1, 2, 3
+    let regime = format!("nonconv:max_iter={}", max_iter);
+    rep.case(&regime);
+    rep.distinct(Hasher::new().s(&regime).s(fam.name()).u(pr.n as u64).u(pr.p as u64).f(tol).fs(&pr.y[..4]).finish(), pr.p >= 2);
+    let fit = lib_fit(&pr, max_iter);
+    rep.check("C06.nonconv.budget_respected", &regime, fit.iters <= max_iter as u64, || json!({"problem": pr.json(), "iterations": fit.iters, "max_iter": max_iter}));
+    match (&fit.outcome, &fit.glm) {
+        (Ok(false), _) => {
+            rep.check("C06.nonconv.reports_err", &regime, true, || json!(null));
+            rep.seen(&format!("{}:err", regime), 1);
+        }
+        (Ok(true), Some(g)) => {
+            // Ok at (or before) the budget is legitimate only if the result is converged
+            rep.seen(&format!("{}:ok", regime), 1);
+            let coef = g.coef().map(|c| c.to_vec()).unwrap_or_default();
+            let ev = if coef.len() == pr.p { evaluate(&pr, &coef, pr.alpha) } else { None };
+            let ok = ev.as_ref().map(|e| e.dec <= K * pr.tol * e.dev.max(1.0)).unwrap_or(false);
+            rep.check("C06.nonconv.reports_err", &regime, ok, || {
+                json!({"problem": pr.json(), "max_iter": max_iter, "iterations": fit.iters, "returned": "Ok", "coef": jf(&coef),
+                       "newton_decrement": ev.as_ref().map(|e| e.dec), "threshold": ev.as_ref().map(|e| K * pr.tol * e.dev.max(1.0))})
+            });
+        }
+        (Err(msg), _) => {
+            rep.check("C06.fit.no_panic", fam.name(), false, || json!({"problem": pr.json(), "max_iter": max_iter, "panic": msg}));
+        }
+        _ => {}
+    }
+}
+
+pub fn run(cfg: &Cfg, rep: &mut Report) {
+    rep.rule = "case i: family = i mod 6, alpha = {0,0.1,1,10}[(i/6) mod 4], tol in {1e-5,1e-8,1e-10,1e-14}; n log-uniform in 20..500 (first 96 cases outside lite mode: n in 20..24, p = 2, so that replay records are small), p in 1..6 columns incl. intercept, design in {standardised normal, raw powers of t in [-1,1], 0/1 indicators mixed with normal}, weights {none, U(0.5,3), integer 1..3 (also fitted as replicated rows)}, offsets {none, U(-0.5,0.5)}; slopes in the ball of radius 1.5, responses simulated by the harness's own samplers (quasi-Poisson: gamma-mixed Poisson); half of the cases refitted on permuted rows; max_iter = 300. Then directed cases: max_iter in {1,2,3} and perfectly separable logistic data. non-trivial = p >= 2 and >= 2 Fisher iterations observed through the glm.iter hook; distinct by (family, n, p, alpha, tol, weights, design, offsets, first responses)".into();
+    rep.assume("the MLE exists: a case is used only if the harness's own damped Fisher scoring converges (for the configured strength and for strength 1) with max |eta| <= 15; others are counted under excluded:*");
+    rep.assume("designs with scaled Gram condition number > 1e6 are re-drawn");
+    rep.assume("deviance / dispersion-based standard errors / BIC are checked by value only for unweighted and integer-weighted fits (n = rows resp. weight sum); for non-integer weights the property does not fix n, only internal consistency is checked");
+    rep.assume("Gaussian closed-form comparison only without offsets");
+    rep.assume("a panic on perfectly separable data (no MLE, outside the quantifier) is counted, not judged; Ok is a violation there");
+    rep.assume("alpha added to the intercept's information entry changes only the iteration path (see notes iterations_max.*), which the property does not constrain");
+    let n = cfg.pick(400, 10000, 25);
+    // sanitizer layers want native sizes from the first case on; otherwise the first 96 cases are small
+    let small_until = if cfg.lite { 0 } else { 96 };
+    par_cases(cfg, rep, 1, n, |i, rng: &mut Rng, rep| main_case(i, small_until, rng, rep));
+    let m = cfg.pick(80, 2000, 6);
+    par_cases(cfg, rep, 2, m, nonconv_case);
+
+    rep.require("glm.iter", 1);
+    rep.require("result:ok", 1);
+    for f in FAMS {
+        rep.require(&format!("fit:{}:alpha=0", f.name()), 1);
+        rep.require(&format!("fit:{}:alpha=1", f.name()), 1);
+        rep.require(&format!("fit:{}:alpha!=0,1", f.name()), 1);
+    }
+    rep.require("nonconv:max_iter=1", 1);
+    rep.require("nonconv:max_iter=2", 1);
+    rep.require("nonconv:separable-logistic", 1);
+    if !cfg.lite {
+        for a in ALPHAS {
+            rep.require(&format!("alpha={}", a), 1);
+        }
+        for t in TOLS {
+            rep.require(&format!("tol={:e}", t), 1);
+            rep.require(&format!("ok:alpha=0:tol={:e}", t), 1);
+        }
+        for w in ["none", "random", "integer"] {
+            rep.require(&format!("w={}", w), 1);
+        }
+        for d in ["normal", "polynomial", "indicator"] {
+            rep.require(&format!("design={}", d), 1);
+        }
+        rep.require("offsets=true", 1);
+        rep.require("offsets=false", 1);
+        rep.require("replication:compared", 1);
+        for p in 1..=6 {
+            rep.require(&format!("p={}", p), 1);
+        }
+    }
 }
